@@ -988,7 +988,7 @@ func corpus() []*CaseSpec {
 
 func runC04(cfg *hv.RunCfg) error {
 	rep := hv.NewReport("C04", cfg.Seed)
-	rep.Rule = "abstract configurations (attributes, blocks with 0..3 labels, nesting, a few dynamic blocks) rendered as native text and/or as JSON text in randomly chosen admissible encodings (object / array-of-objects bodies, label objects / arrays, duplicate property names, \"//\" comments, plus a mutated stream with null / mistyped / duplicate properties); single files, dynblock.Expand of them, hcl.MergeBodies / MergeFiles of 2-3 files of mixed syntax (nested merges, expanded children, expanded merges); histories of 1-4 schema parts (required attributes, absent names, label-count mismatches, kind confusion), name-disjoint or (overlap stream) not; non-trivial = at least one item and at least one schema entry; distinct by SHA-256 of the replay form"
+	rep.Rule = "abstract configurations (attributes, blocks with 0..3 labels, nesting, a few dynamic blocks) rendered as native text and/or as JSON text in randomly chosen admissible encodings (object / array-of-objects bodies, label objects / arrays, duplicate property names, \"//\" comments, plus a mutated stream with null / mistyped / duplicate properties); single files, dynblock.Expand of them, hcl.MergeBodies / MergeFiles of 2-3 files of mixed syntax (nested merges, expanded children, expanded merges); histories of 1-4 schema parts (required attributes, absent names, label-count mismatches, kind confusion), name-disjoint or (overlap stream) not; about 40 % of the cases also carry a tree-shaped history of 3-8 operations over a table of bodies (any body obtained so far - root, remainder, Expand of it, Body of a returned block - may be picked again; PartialContent / Content / JustAttributes / dynblock.Expand / block body; overlapping and repeated schemata), all run on the same Go objects; non-trivial = at least one item and at least one schema entry; distinct by SHA-256 of the replay form"
 	r := hv.NewRng(cfg.Seed, 4)
 	cf := &hv.CaseFile{Dir: cfg.Out, Name: "c04cases",
 		Imports: "From Coq Require Import String.\nFrom HclV Require Import Base.Prelude Body.Laws Body.Native Body.Json Body.Merged Body.BodyCheck.",
@@ -1009,6 +1009,7 @@ func runC04(cfg *hv.RunCfg) error {
 		cases = []*CaseSpec{cs}
 	} else {
 		cases = append(cases, corpus()...)
+		cases = append(cases, treeCorpus()...)
 		if extra, err := filepath.Glob("/verif/corpus/C04/*.json"); err == nil {
 			sort.Strings(extra)
 			for _, p := range extra {
@@ -1041,18 +1042,21 @@ func runC04(cfg *hv.RunCfg) error {
 			continue
 		}
 		k := len(cs.Parts)
-		main, p := runHistory(buildBody(cs, pf), cs.Parts, k-1, &cs.Child)
+		rootBody := buildBody(cs, pf)
+		main, p := runHistory(rootBody, cs.Parts, k-1, &cs.Child)
 		if p != nil {
 			f.fail("panic", "history", fmt.Sprint(p), input)
 			continue
 		}
+		// tree-shaped history on the SAME root object (bodies are values)
+		treeOps := runTree(cs, rootBody, f, input, rep)
 		// the Coq case
 		var steps []string
 		for i := 0; i < k-1; i++ {
 			steps = append(steps, fmt.Sprintf("(%s, %s, %s, %s)", coqSchema(cs.Parts[i]), coqObs(main.Steps[i]), coqJA(main.JAs[i]), coqChildren(main.Kids[i])))
 		}
-		cf.Add(fmt.Sprintf("Case (%s) (%s) %s %s (%s, %s, %s)", coqBody(cs, pf), coqSchema(cs.Child), coqJA(main.JA0), hv.CoqList(steps),
-			coqSchema(cs.Parts[k-1]), coqObs(main.Steps[k-1]), coqChildren(main.Kids[k-1])))
+		cf.Add(fmt.Sprintf("Case (%s) (%s) %s %s (%s, %s, %s) %s", coqBody(cs, pf), coqSchema(cs.Child), coqJA(main.JA0), hv.CoqList(steps),
+			coqSchema(cs.Parts[k-1]), coqObs(main.Steps[k-1]), coqChildren(main.Kids[k-1]), hv.CoqList(treeOps)))
 		rep.Idx(input)
 		nitems, nentries := 0, 0
 		for _, fs := range cs.Files {
